@@ -163,7 +163,7 @@ def windows(run, tier, table):
                 run.violation({"kind": "window_does_not_sum_to_one", "window": kind, "width": w, "sum": float(got.sum())})
     # (high orders on long windows too: t^(order-1) leaves the 64-bit integers long before it leaves the doubles)
     for order in (1, 2, 3, 4, 5, 8, 12, 16):
-        for peak in (0.5, 0.75, 0.9):
+        for peak in (0.0, 0.25, 0.5, 0.75, 0.9):
             for w in [0, 1, 2, 3, 8, 10, 25, 100, 400, 1000] + ([] if tier == "quick" else list(range(11, 200, 3))):
                 g = filters.GammaWindow(order=order, peak=peak).get_impulse_response(w)
                 run.evaluations += 1
@@ -235,7 +235,9 @@ def helpers(run):
             if not math.isclose(a, 2 * math.pi * hz / rate, rel_tol=1e-12, abs_tol=1e-15):
                 run.violation({"kind": "hertz_to_angular_formula", "hz": hz, "rate": rate})
     # gauss_quant: increasing, affine in mu / std, inverse of the normal CDF (erfc from the standard library)
-    ps = sorted(set([10.0 ** e for e in range(-20, 0)] + [0.2, 0.3, 0.4, 0.5] + [1 - 10.0 ** e for e in range(-12, 0)] + [0.6, 0.7, 0.8]))
+    near_half = [0.5 + sg * d for sg in (-1, 1) for d in (1e-9, 1e-7, 1e-6, 3e-6, 4.5e-6, 1e-5, 1e-4, 1e-3, 1e-2)]
+    ps = sorted(set([10.0 ** e for e in range(-20, 0)] + [0.2, 0.3, 0.4, 0.5] + [1 - 10.0 ** e for e in range(-12, 0)] + [0.6, 0.7, 0.8]
+                    + near_half))
     prev = None
     for p in ps:
         z = util.gauss_quant(p)
